@@ -30,7 +30,7 @@ def run(chk):
     if ok:
         chk.coq_props()
     chk.coq_make(["spec/IRRun.vo", "model/Context.vo"])
-    cfg = {"seed": chk.seed * 13 + 5, "per_template": 4 if quick else 40, "max_problems": 90 if quick else 900,
+    cfg = {"seed": chk.seed * 13 + 5, "per_template": 6 if quick else 40, "max_problems": 140 if quick else 900,
            "scales": [10, 100] if quick else [10, 100, 10000], "per_shard": 16, "fuel": 3000000}
     index, failing = run_mgen(chk, "iters", cfg, None, script="c16_gen.py")
     if index is None:
